@@ -69,10 +69,12 @@ class Rx:
         self.tune(rfch)
         chip, b = self.b.chip, self.b
         rx = b.air.phantom_tx(chip.pipe_addr(0), rfch, chip.aw(), chip.rate(), chip.crc_len(), bytes(payload))
-        if not any(how == "new" for (_, _, how) in rx):
-            raise RuntimeError("receiver did not take the packet: %s" % (rx,))
         n0 = len(self.ble.rx_queue)
         exc = "none"
+        if not any(how == "new" for (_, _, how) in rx):      # the listening FakeBLE's radio did not take a packet on its channel
+            return dict(k="rx", payload=list(payload), rfch=rfch, exc="NotListening", queued=0,
+                        elem=dict(mac=[], has_name=False, name=[], has_pa=False, pa=0, data=[]), has_sent=False,
+                        sent=dict(mac=[], has_name=False, name=[], has_pa=False, pa=0, data=[]))
         b.s.deadline = b.s.now + 200_000_000
         try:
             self.ble.available()
